@@ -104,6 +104,17 @@ func TestC07e2e(t *testing.T) {
 						a[nm] = e2eVals[r.Intn(len(e2eVals))]
 					}
 				}
+				// the sparse end of the domain: no attribute map at all, an empty one,
+				// a single attribute (a negation is true of all of these)
+				switch m {
+				case 0:
+					a = nil
+				case 1:
+					a = map[string]string{}
+				case 2:
+					nm := e2eNames[r.Intn(len(e2eNames))]
+					a = map[string]string{nm: e2eVals[r.Intn(len(e2eVals))]}
+				}
 				attrs[m] = a
 				req.Messages = append(req.Messages, &pubsubpb.PubsubMessage{Data: []byte(fmt.Sprintf("%d", m)), Attributes: a})
 			}
